@@ -152,7 +152,11 @@ class Evaluator:
                     return Unknown("division by zero")
                 return a / b
             if isinstance(op, ast.Pow):
+                if not b.is_const() and a.is_const() and a.const_value() > 0:
+                    return _const_pow(a.const_value(), b)
                 return a ** b
+            if isinstance(op, ast.MatMult):
+                return a * b
             return Unknown(f"operator {type(op).__name__}")
         if isinstance(node, ast.IfExp):
             c = self.cond(node.test, self)
@@ -166,8 +170,14 @@ class Evaluator:
                 r = self.subscript(node, self)
                 if r is not NotImplemented:
                     return r
+            base = self._ev(node.value)
+            if isinstance(base, tuple) and isinstance(node.slice, ast.Constant) and isinstance(node.slice.value, int):
+                try:
+                    return base[node.slice.value]
+                except IndexError:
+                    return Unknown(f"index out of range {ast.unparse(node)}")
             if self.erase_subscripts:
-                return self._ev(node.value)
+                return base
             return Unknown(f"subscript {ast.unparse(node)}")
         if isinstance(node, ast.Call):
             return self._call(node)
@@ -265,6 +275,21 @@ class Evaluator:
             self.stores.append((base, idx, v, st))
             if base is not None and base not in self.pinned and self.store_accept(base, idx, st):
                 self.env[base] = v
+
+
+def _const_pow(base, expo):
+    """base ** (c * s) for a positive constant base and an exponent c*s with one
+    symbol s and integer c  ->  sym('base^s') ** c."""
+    if not expo.d.is_const() or len(expo.n.t) != 1:
+        raise Unsupported(f"power with exponent {expo}")
+    (m, c), = expo.n.t.items()
+    c = c / expo.d.const_value()
+    if len(m) != 1 or m[0][1] != 1 or c.denominator != 1:
+        raise Unsupported(f"power with exponent {expo}")
+    d = F.atom_desc(m[0][0])
+    if d[0] != "s":
+        raise Unsupported(f"power with exponent {expo}")
+    return F.sym(f"{base}^{d[1]}") ** int(c)
 
 
 def _vec_binop(op, a, b):
